@@ -109,6 +109,61 @@ class Graph:
                     q.append(v)
         return None
 
+    def keyed_cover(self, maxlen, key, rng=None):
+        """tours that take, for every distinct key(e), at least one edge with that key (a cover of
+        the graph's (state class, event) pairs).  Returns (scripts, number of keys)."""
+        rng = rng or random.Random(0)
+        ekey = [key(e) for e in range(self.m)]
+        todo = set(ekey)
+        nkeys = len(todo)
+        cand = [[e for e in self.out[u]] for u in range(self.n)]
+
+        def pick(u):
+            lst = cand[u]
+            while lst:
+                e = lst[-1]
+                if ekey[e] in todo:
+                    return e
+                lst.pop()
+            return None
+        for u in range(self.n):
+            rng.shuffle(cand[u])
+        scripts = []
+        while todo:
+            progressed = False
+            for init in self.inits:
+                cur = init
+                path = []
+                while todo:
+                    e = pick(cur)
+                    if e is not None and len(path) < maxlen:
+                        todo.discard(ekey[e])
+                        cand[cur].pop()
+                        path.append(e)
+                        cur = self.dst[e]
+                        progressed = True
+                        continue
+                    hop = self._bfs_to(cur, lambda v: pick(v) is not None)
+                    if hop is None or (path and len(path) + len(hop) >= maxlen):
+                        break
+                    path.extend(hop)
+                    cur = self.dst[hop[-1]]
+                    if not path:
+                        break
+                    e = pick(cur)
+                    if e is None:
+                        break
+                    todo.discard(ekey[e])
+                    cand[cur].pop()
+                    path.append(e)
+                    cur = self.dst[e]
+                    progressed = True
+                if path:
+                    scripts.append(path)
+            if not progressed:
+                break
+        return scripts, nkeys
+
     def edge_cover(self, maxlen, rng=None, skip=None):
         """scripts (lists of edge indices) that together take every edge at least once.
         skip(e) -> True for edges that need not be covered (e.g. pure self-loops of reads)."""
